@@ -256,12 +256,26 @@ def d_blocks(phase, fam, ns, ref_size, est_size, skip_same=False, first_ref_none
     return blocks
 
 
+def e_blocks(phase, fam):
+    """estimate time base with the SAME length and the SAME first and last stamp as the reference but other interior
+    stamps (4 frames; the two interior estimate stamps sit 1/16 and 2/16 s after the first one): nearest-frame
+    resampling then pairs reference frames 1 and 2 with estimate frames 2 and 3, not with 1 and 2.  Frames from a
+    3-frame panel (empty, one pitch, two pitches)."""
+    al = alphabet(phase, fam)
+    pn = panel(al, 3)
+    rt = ref_times(phase, 4)
+    t0 = Fr(rt[0])
+    et = (rt[0], float(t0 + Fr(1, 16)), float(t0 + Fr(2, 16)), rt[3])
+    return [_variant_block(rt, et, [pn] * 4, [pn] * 4)]
+
+
 def pair_space(tier, phase):
     fam = family_of(phase)
     if tier == "thorough":
         blocks = s_blocks(phase, fam, 2, panel3=4) + d_blocks(phase, other(fam), (0, 1, 2, 3), 6, 6)
     else:
         blocks = s_blocks(phase, fam, 2) + d_blocks(phase, other(fam), (0, 1, 2), 6, 6)
+    blocks += e_blocks(phase, fam)
     blocks.sort(key=lambda b: len(b.comps))        # shortest states first (stable)
     return LazySpace(blocks)
 
